@@ -354,3 +354,58 @@ package rockredis
 //@   ensures result1 == nil ==> len(result0) >= 13 && result0[0] == 1 && be32(result0, 1) == when
 //@   ensures result1 == nil ==> sameSlice(result0, rawValue)
 //@   modifies rawValue[0:13]
+
+//@ property C13
+
+// ---- cursor scans inside one collection: the page range is (cursor, end of collection) forward and
+//      (start of collection, cursor) in reverse, both built with the collection's own key encoder ----
+//@ spec dtOf(t byte) byte = t
+//@ func encodeSpecificDataScanKey(storeDataType byte, table []byte, rk []byte, cursor []byte) ([]byte, error)
+//@   requires smallTK(table, rk)
+//@   ensures result1 == nil <==> (storeDataType == HashType || storeDataType == ZSetType || storeDataType == SetType)
+//@   ensures result1 == nil ==> isCollKey(result0, storeDataType, table, rk, cursor) && fresh(result0)
+//@ func encodeSpecificDataScanMinKey(storeDataType byte, table []byte, key []byte, cursor []byte) ([]byte, error)
+//@   requires smallTK(table, key)
+//@   ensures result1 == nil <==> (storeDataType == HashType || storeDataType == ZSetType || storeDataType == SetType)
+//@   ensures result1 == nil ==> isCollKey(result0, storeDataType, table, key, cursor) && fresh(result0)
+// the upper end without a cursor is the collection's stop key (separator + 1), which is above every element key
+//@ func encodeSpecificDataScanMaxKey(storeDataType byte, table []byte, key []byte, cursor []byte) ([]byte, error)
+//@   requires smallTK(table, key)
+//@   ensures result1 == nil <==> (storeDataType == HashType || storeDataType == ZSetType || storeDataType == SetType)
+//@   ensures result1 == nil && len(cursor) > 0 ==> isCollKey(result0, storeDataType, table, key, cursor) && fresh(result0)
+//@   ensures result1 == nil && len(cursor) == 0 ==> isCollStop(result0, storeDataType, table, key) && fresh(result0)
+
+//@ func buildSpecificDataScanKeyRange(storeDataType byte, table []byte, key []byte, cursor []byte, reverse bool) (minKey []byte, maxKey []byte, err error)
+//@   requires smallTK(table, key)
+//@   ensures err == nil <==> (storeDataType == HashType || storeDataType == ZSetType || storeDataType == SetType)
+//@   ensures err == nil && !reverse ==> isCollKey(minKey, storeDataType, table, key, cursor) && isCollStop(maxKey, storeDataType, table, key)
+//@   ensures err == nil && reverse ==> isCollKey(maxKey, storeDataType, table, key, cursor) && isCollKey(minKey, storeDataType, table, key, nil)
+
+//@ func checkScanCount(count int) int
+//@   ensures 1 <= result && result <= MAX_BATCH_NUM
+//@   ensures 1 <= count && count <= MAX_BATCH_NUM ==> result == count
+
+//@ noeffect (*github.com/youzan/ZanRedisDB/engine.RangeLimitedIterator).Close (github.com/youzan/ZanRedisDB/engine.Iterator).Close
+
+//@ func buildMatchRegexp(match string) (glob.Glob, error)
+//@   trusted compiles the MATCH pattern (third-party glob library)
+//@ interface (github.com/gobwas/glob.Glob).Match func(g glob.Glob, s string) bool
+//@ func (db *RockDB) GetCollVersionKey(ts int64, dt byte, key []byte, useLock bool) (collVerKeyInfo, error)
+//@   trusted reads the collection meta from the store
+//@   ensures result1 == nil ==> result0.OldHeader != nil
+//@ func (info collVerKeyInfo) IsNotExistOrExpired() bool
+//@   trusted pure predicate on the meta read
+//@ func (db *RockDB) buildSpecificDataScanIterator(storeDataType byte, table []byte, key []byte, cursor []byte, count int, reverse bool) (*engine.RangeLimitedIterator, error)
+//@   trusted opens an engine iterator over buildSpecificDataScanKeyRange(...) with RangeOpen and the given count (engine contract, C20)
+//@   ensures result1 == nil ==> rliOK(result0) && result0.step == 0
+// keys inside a collection's range were produced by the collection's encoder (C12): they are decodable
+//@ interface (github.com/youzan/ZanRedisDB/engine.Iterator).Key func(it engine.Iterator) []byte
+//@   ensures collDecodeSafe(result) && fresh(result)
+
+// a page holds at most COUNT elements and only elements that passed the MATCH filter are counted
+//@ func (db *RockDB) sScanGeneric(key []byte, cursor []byte, count int, match string, reverse bool) ([][]byte, error)
+//@   requires db != nil
+//@   ensures result1 == nil ==> len(result0) <= MAX_BATCH_NUM && (1 <= count && count <= MAX_BATCH_NUM ==> len(result0) <= count)
+//@   modifies *
+//@ loop 1
+//@   invariant i == len(v) && 0 <= i && i <= count && 1 <= count && count <= MAX_BATCH_NUM && (1 <= old(count) && old(count) <= MAX_BATCH_NUM ==> count == old(count)) && it != nil && rliOK(it)
